@@ -476,7 +476,7 @@ void meaning_case(const std::vector<int>& seq, bool through_runner) {
     if (as_set(c.nf) != as_set(ref.nf)) vf::fail("filters/name-list", A + ": name filters " + show(c.nf) + ", documented " + show(ref.nf));
 
     // ---- selection on the probe registry, by the library's own shouldRun() on the parsed lists
-    bool sel[NPROBE]; int nsel = 0;
+    bool sel[NPROBE], actual[NPROBE]; int nsel = 0;
     for (int id = 0; id < NPROBE; id++) { sel[id] = selected_by(ref.gf, ref.nf, id); nsel += sel[id]; }
     {
         Argv v(a);
@@ -484,21 +484,42 @@ void meaning_case(const std::vector<int>& seq, bool through_runner) {
         vf::ctx("parse-for-selection");
         cla.parse(NullTestPlugin::instance());
         vf::ctx("shouldRun");
+        bool reported = false;
         for (int id = 0; id < NPROBE; id++) {
             ProbeShell sh(id);
             bool s = sh.shouldRun(cla.getGroupFilters(), cla.getNameFilters());
-            if (s != sel[id]) { vf::fail("filters/selection", A + ": " + probe_str(id) + vf::fmt(" selected=%d, documented %d", (int)s, (int)sel[id])); break; }
+            actual[id] = s;
+            if (s != sel[id] && !reported) { vf::fail("filters/selection", A + ": " + probe_str(id) + vf::fmt(" selected=%d, documented %d", (int)s, (int)sel[id])); reported = true; }
         }
         vf::ctx("after");
     }
-    // observations that are not asserted (see notes): natural-language reading of a single -xt/-xst, pairing of several group.name options
+    // ---- a single -xt / -xst <grp>.<name> and no other group/name filter option: "exclude tests whose group and name
+    // contain (exactly match) <grp> and <name>" - documented to exclude exactly the tests matching both. (Known finding: the
+    // two inverted filter lists exclude every test whose group matches OR whose name matches.)
+    {
+        int nfilter = 0; const Inst* x = nullptr;
+        for (int ix : seq) { const Inst& i = INST[(size_t)ix]; if (i.kind == K_GF || i.kind == K_NF || i.kind == K_DOT || i.kind == K_TEST) { nfilter++; if (i.kind == K_DOT && i.inv) x = &i; } }
+        if (nfilter == 1 && x) {
+            Filt g{x->a, x->strict, false}, n{x->b, x->strict, false};
+            std::set<std::string> doc_excl, act_excl; bool differ = false;
+            for (int id = 0; id < NPROBE; id++) {
+                std::string nm = std::string(GROUPS[probe_gi(id)]) + "." + NAMES[probe_ni(id)];
+                bool doc_excluded = g.accepts(GROUPS[probe_gi(id)]) && n.accepts(NAMES[probe_ni(id)]);
+                if (doc_excluded) doc_excl.insert(nm);
+                if (!actual[id]) act_excl.insert(nm);
+                if (doc_excluded == actual[id]) differ = true;
+            }
+            if (differ) {
+                auto join = [](const std::set<std::string>& w) { std::string o = "{"; for (auto& e : w) { if (o.size() > 1) o += " "; o += e; } return o + "}"; };
+                vf::fail(x->strict ? "meaning/xst-excludes-more-than-the-documented-pair" : "meaning/xt-excludes-more-than-the-documented-pair",
+                         A + ": documented to exclude " + join(doc_excl) + " of the probe registry {A,AB,B}x{b,ab,c}, actually excluded " + join(act_excl));
+            }
+        }
+    }
+    // observation that is not asserted (see notes): pairing of several group.name options
     {
         int ndot = 0; bool xdot = false;
         for (int ix : seq) if (INST[(size_t)ix].kind == K_DOT || INST[(size_t)ix].kind == K_TEST) { ndot++; if (INST[(size_t)ix].inv) xdot = true; }
-        if (seq.size() == 1 && xdot) {
-            const Inst& i = INST[(size_t)seq[0]]; Filt g{i.a, i.strict, false}, n{i.b, i.strict, false};
-            for (int id = 0; id < NPROBE; id++) { bool natural = !(g.accepts(GROUPS[probe_gi(id)]) && n.accepts(NAMES[probe_ni(id)])); if (natural != sel[id]) { vf::count("obs.single-exclude-pair-excludes-more-than-the-pair"); break; } }
-        }
         if (ndot >= 2 && !xdot) {
             bool all_dot = true; for (int ix : seq) if (INST[(size_t)ix].kind != K_DOT && INST[(size_t)ix].kind != K_TEST) all_dot = false;
             if (all_dot) for (int id = 0; id < NPROBE; id++) {
